@@ -20,14 +20,14 @@ type cv struct {
 	kids []*cv
 }
 
-func cUint(n uint64) *cv      { return &cv{k: 'u', n: n} }
-func cNint(n uint64) *cv      { return &cv{k: 'i', n: n} }
-func cBytes(b []byte) *cv     { return &cv{k: 'b', b: b} }
-func cText(s string) *cv      { return &cv{k: 't', b: []byte(s)} }
-func cArr(k ...*cv) *cv       { return &cv{k: 'a', kids: k} }
-func cMap(k ...*cv) *cv       { return &cv{k: 'm', kids: k} }
+func cUint(n uint64) *cv       { return &cv{k: 'u', n: n} }
+func cNint(n uint64) *cv       { return &cv{k: 'i', n: n} }
+func cBytes(b []byte) *cv      { return &cv{k: 'b', b: b} }
+func cText(s string) *cv       { return &cv{k: 't', b: []byte(s)} }
+func cArr(k ...*cv) *cv        { return &cv{k: 'a', kids: k} }
+func cMap(k ...*cv) *cv        { return &cv{k: 'm', kids: k} }
 func cTag(n uint64, v *cv) *cv { return &cv{k: 'g', n: n, kids: []*cv{v}} }
-func cRaw(b ...byte) *cv      { return &cv{k: 'r', b: b} }
+func cRaw(b ...byte) *cv       { return &cv{k: 'r', b: b} }
 
 var (
 	cNull  = func() *cv { return cRaw(0xf6) }
